@@ -391,7 +391,8 @@ def percent_format(interp, fmt, args):
             pieces.append(Tok("int", sv.trunc(a)) if not (is_conc(a) and not isinstance(a, Fraction)) else str(int(a)))
         elif conv in ("f", "g", "e"):
             nd = int(m.group(1)) if m.group(1) else 6
-            pieces.append(Tok("float", sv.round_dec(sv.to_real(a), nd) if nd in (6, 8) else sv.to_real(a)))
+            # %e / %g round to significant digits, not to decimals: the token carries the unrounded number
+            pieces.append(Tok("float", sv.round_dec(sv.to_real(a), nd) if nd in (6, 8) and conv == "f" else sv.to_real(a)))
         else:
             pieces.append(to_str(interp, a) if not isinstance(a, (Text,)) else a)
     pieces.append(fmt[pos:])
